@@ -128,9 +128,10 @@ func (a lin) subst(atom string, repl lin) lin {
 // linEnv maps the parameters of an inlined callee to the caller's forms and
 // names.
 type linEnv struct {
-	forms map[*ssa.Parameter]lin
-	names map[*ssa.Parameter]string
-	depth int
+	forms    map[*ssa.Parameter]lin
+	names    map[*ssa.Parameter]string
+	depth    int
+	noInline bool
 	// alias lets a rule rename atoms (e.g. all `src.End()` calls to "E").
 	alias func(v ssa.Value) (string, bool)
 }
@@ -303,12 +304,13 @@ func linOf(v ssa.Value, env *linEnv) lin {
 				}
 			}
 		}
-		if f := x.Call.StaticCallee(); f != nil && inModule(f) && len(f.Blocks) == 1 && (env == nil || env.depth < 3) {
+		if f := x.Call.StaticCallee(); f != nil && inModule(f) && len(f.Blocks) == 1 && (env == nil || (env.depth < 3 && !env.noInline)) {
 			if ret, ok := f.Blocks[0].Instrs[len(f.Blocks[0].Instrs)-1].(*ssa.Return); ok && len(ret.Results) == 1 && isIntegral(ret.Results[0].Type()) && len(f.Params) == len(x.Call.Args) {
 				sub := &linEnv{forms: map[*ssa.Parameter]lin{}, names: map[*ssa.Parameter]string{}}
 				if env != nil {
 					sub.depth = env.depth + 1
 					sub.alias = env.alias
+					sub.noInline = env.noInline
 				} else {
 					sub.depth = 1
 				}
